@@ -73,6 +73,13 @@ CORPUS = [
      'cfg': {}, 'docs': [{'m': {'a': 1, 'B': -1}, 'n': 3, 'o': {'p': 1.5, 'x': 1}, 'q': 6}, {'m': {'k': 2}, 'n': 2, 'o': {'p': 'x'}, 'q': 1}],
      'threads': [[('construct', 0), ('validate', 0, 0)], [('construct', 0), ('validate', 0, 1)]],
      'cls': 'V', 'origin': 'corpus-deprecated-top-level'},
+    # the error handler given as (class, options): the threads pass one and the same configuration object
+    {'objs': [{'s': {'type': 'string', 'maxlength': 2}, 'n': {'type': 'integer', 'min': 10},
+               'd': {'type': 'dict', 'schema': {'x': {'type': 'integer', 'anyof': [{'min': 5}, {'max': -5}]}}}}],
+     'cfg': {'error_handler': (cerr.BasicErrorHandler, {'tree': {}})},
+     'docs': [{'s': 'abcdef', 'n': 11, 'd': {'x': 7}}, {'s': 'ab', 'n': 3, 'd': {'x': 0}}, {'s': 5, 'n': 'x'}],
+     'threads': [[('construct', 0), ('validate', 0, 0), ('validate', 0, 2)], [('construct', 0), ('validate', 0, 1), ('validate', 0, 0)]],
+     'cls': 'V', 'origin': 'corpus-handler-options'},
 ]
 
 
